@@ -16,6 +16,8 @@
 //!                                   replier sends the late reply to the first just before the reply to the second (n rounds)
 //!   rqstall <n> <kib>               a replier that registers and then never reads; a requestor (400 ms timeout) issues n
 //!                                   requests of <kib> KiB one after the other: each must fail with a timeout in time
+//!   rqwrap <calls>                  a call stays outstanding while <calls> more are made, then its late reply arrives just before the
+//!                                   reply to one more call (thorough tier, and whenever a proof obligation of the property is broken)
 //!   rqdead <n> <victim>            n requestor streams, each on a connection of its own, have one request in flight (all with
 //!                                   the same req_id: every stream counts from 0); the connection of requestor <victim> is
 //!                                   cut; the replier answers the victim's request first (the router finds the dead sink and
@@ -335,6 +337,84 @@ async fn run_dead(addr: SocketAddr, certs: &Certs, n: usize, victim: usize) -> a
     Ok(format!("{} | {}", outs.join(","), follow.join(",")))
 }
 
+/// `rqwrap <calls>`: a call whose reply is held back stays outstanding while <calls> further calls are made on clones of the
+/// same requestor (all answered at once), then one more call: the replier answers the old one first, then the new one.
+/// Request ids must not have come round in between (fewer than 2^32 calls): each of the two gets its own reply.
+async fn run_wrap(addr: SocketAddr, certs: &Certs, calls: usize) -> anyhow::Result<String> {
+    let topic = format!("/verif/rpc{}", TOPIC.fetch_add(1, Ordering::SeqCst));
+    let conn = raw_connect(addr, &certs.client("ca.der"), Some((&certs.client("localhost.der"), &certs.client("localhost.key.der")))).await?;
+    let mut rs = raw_stream(&conn).await?;
+    rs.send(Frame::RegisterReplier(ReplierPayload { topic: TopicName::try_from(topic.as_str())? })).await?;
+    match rs.next().await { Some(Ok(Frame::Ok)) => {}, other => anyhow::bail!("replier registration answered {other:?}") }
+    let replier = tokio::spawn(async move {
+        let _keep = conn;
+        let mut held: Option<MessagePayload> = None;
+        let reply = |p: &MessagePayload| Frame::Message(MessagePayload { headers: p.headers.clone(), message: format!("r:{}", String::from_utf8_lossy(&p.message)).into() });
+        while let Some(Ok(Frame::Message(p))) = rs.next().await {
+            if &p.message[..] == b"first" { held = Some(p); continue; }
+            if &p.message[..] == b"last" { if let Some(h) = held.take() { let _ = rs.send(reply(&h)).await; } }
+            let _ = rs.send(reply(&p)).await;
+        }
+    });
+    tokio::time::sleep(Duration::from_millis(30)).await;
+    let client = client(addr, certs, BackoffStrategy::constant().with_max_attempts(0)).await?;
+    let rq = client.requestor(&topic).with_request_encoder(StringCodec).with_reply_decoder(StringCodec).with_request_timeout(120_000u64)?.open().await?;
+    let mut a = rq.clone();
+    let first = tokio::spawn(async move { a.request("first".to_string()).await });
+    tokio::time::sleep(Duration::from_millis(100)).await;
+    let workers = 16usize;
+    let mut hs = vec![];
+    for w in 0..workers {
+        let mut r = rq.clone();
+        let n = calls / workers + if w < calls % workers { 1 } else { 0 };
+        hs.push(tokio::spawn(async move {
+            let mut bad = 0usize;
+            for k in 0..n { let own = format!("e{w}.{k}"); match r.request(own.clone()).await { Ok(s) if s == format!("r:{own}") => {}, _ => bad += 1 } }
+            bad
+        }));
+    }
+    let mut bad = 0;
+    for h in hs { bad += h.await?; }
+    let mut b = rq.clone();
+    let last = b.request("last".to_string()).await;
+    let first = tokio::time::timeout(Duration::from_secs(10), first).await;
+    replier.abort();
+    let f = match first { Ok(Ok(r)) => outcome(&r, "first"), _ => "hang".to_string() };
+    Ok(format!("{},{}{}", f, outcome(&last, "last"), if bad == 0 { String::new() } else { format!(",wrong:{bad}_of_the_calls_in_between") }))
+}
+
+/// `rqstallc <n> <kib>`: like `rqstall`, but the n calls are made at the same time on clones of one requestor (400 ms
+/// timeout): every one of them must fail with a timeout in time, not one after the other
+async fn run_stall_concurrent(addr: SocketAddr, certs: &Certs, n: usize, kib: usize) -> anyhow::Result<String> {
+    let topic = format!("/verif/rpc{}", TOPIC.fetch_add(1, Ordering::SeqCst));
+    let conn = raw_connect(addr, &certs.client("ca.der"), Some((&certs.client("localhost.der"), &certs.client("localhost.key.der")))).await?;
+    let mut rs = raw_stream(&conn).await?;
+    rs.send(Frame::RegisterReplier(ReplierPayload { topic: TopicName::try_from(topic.as_str())? })).await?;
+    match rs.next().await { Some(Ok(Frame::Ok)) => {}, other => anyhow::bail!("replier registration answered {other:?}") }
+    tokio::time::sleep(Duration::from_millis(30)).await;
+    let client = client(addr, certs, BackoffStrategy::constant().with_max_attempts(0)).await?;
+    let rq = client.requestor(&topic).with_request_encoder(StringCodec).with_reply_decoder(StringCodec).with_request_timeout(400u64)?.open().await?;
+    let body = "x".repeat(kib * 1024);
+    let t0 = std::time::Instant::now();
+    let mut hs = vec![];
+    for i in 0..n {
+        let mut r = rq.clone();
+        let own = format!("{i}|{body}");
+        hs.push(tokio::spawn(async move { let res = r.request(own).await; (res, t0.elapsed()) }));
+    }
+    let mut outs = vec![];
+    for h in hs {
+        match tokio::time::timeout(Duration::from_secs(12), h).await {
+            Err(_) => outs.push("hang".to_string()),
+            Ok(Err(_)) => outs.push("panic".to_string()),
+            // a timeout of 400 ms reported more than 3 s after the call was made is not a timely error
+            Ok(Ok((res, dt))) => outs.push(if dt > Duration::from_millis(3000) { format!("late:{}ms", dt.as_millis()) } else { outcome(&res, "?") }),
+        }
+    }
+    drop(rs);
+    Ok(outs.join(","))
+}
+
 async fn run_reuse(addr: SocketAddr, certs: &Certs, rounds: usize) -> anyhow::Result<String> {
     let mut outs = vec![];
     for _ in 0..rounds {
@@ -388,15 +468,22 @@ pub fn run(cfg: &Cfg) {
         cases.push("rqstall 3 1".into());
         cases.push("rqstall 8 900".into());
         if cfg.tier == Tier::Thorough { cases.push("rqcut 6 3".into()); cases.push("rqreuse 6".into()); }
+        // ids that have come round (only when looking hard: 65 535 calls take a few seconds)
+        cases.push("rqwrap 65535".into());
+        cases.push("rqwrap 255".into());
+        if cfg.tier == Tier::Thorough || searching() { cases.push("rqwrap 131071".into()); }
+        cases.push("rqstallc 10 900".into());
         cases.push("rq 2 1 400 rev l,l".into());
         cases.push("rq 1 4 400 rev l,r,d,u".into());
     }
     for c in &cases {
         let t: Vec<&str> = c.split(' ').collect();
-        if t[0] == "rqdead" || t[0] == "rqcut" || t[0] == "rqreuse" || t[0] == "rqstall" || t[0] == "rqlate" || t[0] == "rqstagger" {
+        if t[0] == "rqstallc" || t[0] == "rqwrap" || t[0] == "rqdead" || t[0] == "rqcut" || t[0] == "rqreuse" || t[0] == "rqstall" || t[0] == "rqlate" || t[0] == "rqstagger" {
             let res = rt.block_on(async {
                 tokio::time::timeout(Duration::from_secs(90), async {
-                    if t[0] == "rqdead" { run_dead(addr, &certs, t[1].parse()?, t[2].parse()?).await }
+                    if t[0] == "rqstallc" { run_stall_concurrent(addr, &certs, t[1].parse()?, t[2].parse()?).await }
+                    else if t[0] == "rqwrap" { run_wrap(addr, &certs, t[1].parse()?).await }
+                    else if t[0] == "rqdead" { run_dead(addr, &certs, t[1].parse()?, t[2].parse()?).await }
                     else if t[0] == "rqcut" { run_cut(addr, &certs, t[1].parse()?, t[2].parse()?).await }
                     else if t[0] == "rqstall" { run_stall(addr, &certs, t[1].parse()?, t[2].parse()?).await }
                     else if t[0] == "rqlate" { run_late(addr, &certs, t[1].parse()?).await }
@@ -414,8 +501,9 @@ pub fn run(cfg: &Cfg) {
                     for (j, o) in line.replace(" | ", ",").split(',').enumerate() {
                         if o == "gone" { continue; }
                         if o.starts_with("wrong") { m = Err(format!("{tag}: request() returned another request's reply ({o}) [{line}]")); break; }
+                        if o.starts_with("late") { m = Err(format!("{tag}: a request that cannot be handed over (the replier reads nothing, other clones are stuck in the same send) reported its timeout late ({o}) [{line}]")); break; }
                         if o == "hang" { m = Err(format!("{tag}: a request whose reply cannot arrive did not fail with a timeout error: request() never returned [{line}]")); break; }
-                        let want = if ((t[0] == "rqreuse" || t[0] == "rqlate") && j % 3 == 0) || t[0] == "rqstall" { "timeout" } else { "ok" };
+                        let want = if ((t[0] == "rqreuse" || t[0] == "rqlate") && j % 3 == 0) || t[0] == "rqstall" || t[0] == "rqstallc" { "timeout" } else { "ok" };
                         if o != want { m = Err(format!("{tag}: call {j} ended with {o}, expected {want} [{line}]")); break; }
                     }
                     (line, m)
